@@ -218,7 +218,8 @@ def static_state_check(res, env, rnd, spec):
     after = results[0].events[len(history):]
     for t, ev_long in zip(texts + [None], after):
         op = {'op': 'rs.parse', 'text': t, 'syntax': 'UNDEF', 'gen': True} if t is not None else static_ops[0]
-        single = core.run_driver(env.driver, [core.case([op], kind='static-fresh')])[0]
+        # the fresh process prints in the OTHER order (ASCII first): output must not depend on what the shared generator printed before
+        single = core.run_driver(env.driver, [core.case([dict(op, gen_first='ASCII')] if t is not None else [op], kind='static-fresh')])[0]
         if not single.complete:
             res.count('inconclusive')
             continue
